@@ -8,7 +8,8 @@ environment events) and hold for EVERY initial buffer state, traffic still to co
 thread steps and interleaved environment events (peer closes, stops/resumes reading, keep-alive
 expiry, the connection a delivery is addressed to blocks/unblocks, `Server.Close`).
 `WF c` fixes the code as it is: repaired ring (the contract of C15), `stop()` in the order of
-service.go (regenerated, `C16_source_shape`), a ring that holds a read block plus a packet header.
+service.go and a receiver that closes the socket when its read has failed (repair b77088f, finding
+F7; both regenerated, `C16_source_shape`), a ring that holds a read block plus a packet header.
 
 * `C16_invariant`            the three invariants and "no writer panicked" hold in every reachable state
 * `C16_stop_once`            (a) at most one `stop()` call is past the CAS; its effects are
@@ -19,16 +20,29 @@ service.go (regenerated, `C16_source_shape`), a ring that holds a read block plu
                              more than `rank` thread steps; fair round-robin reaches, within `rank`
                              rounds, a state in which nothing can run
 * `C16_no_deadlock_partial`  (c) in a reachable state where the connection has ended, the teardown is
-                             not complete, the processor is not inside a delivery held up by a
-                             still-open connection that has stopped reading (`HeldUp`), and the state
-                             is not the F3 wedge (`ChunkWedge`), some thread can step
+                             not complete, the processor is not inside a delivery into ANOTHER
+                             connection that is still open, has stopped reading and is full
+                             (`HeldUp` = `HeldByThird`: all that is left of the exemption), and the
+                             state is not the F3 wedge (`ChunkWedge`), some thread can step
+* `C16_self_held_not_ended`  a connection whose processor is parked behind its OWN non-reading client
+                             (`HeldBySelf`, an exemption before b77088f) is, when nothing can run, a
+                             connection that has not ended: every end the receiver sees closes the socket
+* `C16_read_failure_completes` hence: once the receiver's read has failed (keep-alive deadline fired,
+                             peer closed or reset, protocol garbage ending the processor — anything
+                             that puts the receiver past its loop) fair round-robin ends in the
+                             complete teardown or `HeldByThird`; neither the self-held state nor the F3
+                             wedge can come in between
+* `C16_old_receiver_wedges`  closed counterexample: with the receiver before b77088f (returns without
+                             closing the socket) a keep-alive expiry on a self-held connection ends in
+                             a state where nothing can run and nothing is torn down; the repaired
+                             receiver tears the same state down, will included
 * `C16_no_deadlock_counterexample`, `C16_chunk_wedge_char`
                              the full statement is FALSE of the code: a packet longer than
                              `cap - rblock` arriving in pieces parks receiver and processor (open
                              finding F3); `ChunkWedge` holds only for such packets
 * `C16_teardown_completes`   hence: from any reachable state in which the connection has ended, fair
-                             round-robin ends in the complete teardown — or in a state the property
-                             exempts (`HeldUp`), or in the F3 wedge
+                             round-robin ends in the complete teardown — or in the state the property
+                             exempts (`HeldByThird`), or in the F3 wedge
 * `C16_exemption_needed`     while the connection a delivery is addressed to stays open, not reading,
                              full, no schedule of the connection's own threads completes the teardown
 * `C16_stop_completes`       (e) once `stop()` has passed its CAS and no delivery to another connection
@@ -60,8 +74,9 @@ namespace Mqtt.Properties.C16
 open Mqtt.Model.Lifecycle Mqtt.Proofs.Lifecycle
 
 /-- the source still has the shape the model is written against: order of `stop()`, deferred
-recovers, Done-then-stop, `Server.Close` closing all outgoing rings first, the lock structure of
-the ring (C15's contract is about that buffer.go) -/
+recovers, Done-then-stop, `Server.Close` closing all outgoing rings first, the receiver closing the
+socket after a failed `ReadFrom` (3 = `conn.Close()`, 4 = return), the lock structure of the ring
+(C15's contract is about that buffer.go) -/
 theorem C16_source_shape :
     (Mqtt.Generated.lifeStopSeq = stopProgram.map StopOp.code ∧
       stopTrace probeCfg 20 probeStopSh (.run 0) = Mqtt.Generated.lifeStopSeq) ∧
@@ -73,9 +88,13 @@ theorem C16_source_shape :
     (procLoopVisit probeCfg 5 { inR := { buf := 4 }, stream := [⟨2, 4, .normal []⟩] } .size = Mqtt.Generated.lifeProcLoop) ∧
     (writerVisit probeCfg 6 {} ⟨.check, 3⟩ = Mqtt.Generated.lifeWriteMessage) ∧
     Mqtt.Generated.lifeServerClose = [1, 2] ∧
+    (Mqtt.Generated.lifeRecvOnError = [3, 4] ∧
+      recvExitVisit probeCfg 8 { timeout := true } .read = Mqtt.Generated.lifeRecvOnError ∧
+      recvExitSock probeCfg 8 { timeout := true } .read = .closed) ∧
     Mqtt.Generated.bufferLocks = Mqtt.Model.Ring.lockFacts :=
   ⟨facts_stop_order, ⟨facts_stop_guards.1, facts_stop_guards.2.1, facts_stop_guards.2.2.1⟩, facts_recover,
-   facts_defers, facts_loops.1, facts_write_message.1, facts_server_close, Mqtt.Proofs.Ring.ring_lock_facts⟩
+   facts_defers, facts_loops.1, facts_write_message.1, facts_server_close,
+   ⟨facts_receiver.1, facts_receiver.2.2.1, facts_receiver.2.2.2.1⟩, Mqtt.Proofs.Ring.ring_lock_facts⟩
 
 /-- a reachable state: any schedule (thread steps and environment events) from an initial state -/
 def reach (c : Cfg) (s0 : St) (sched : List Label) : St := run c s0 sched
@@ -165,11 +184,13 @@ theorem C16_teardown_bounded (c : Cfg) (hw : WF c) (s0 : St) (h0 : Init c s0) (s
 
 /-- **(c) no deadlock among the connection's threads** (partial: the F3 wedge excluded).  In a
 reachable state in which the connection has ended and the teardown is not complete, some thread can
-step — unless the processor is inside a delivery held up by a still-open connection that has
-stopped reading (the property's exemption), or the state is the F3 wedge. -/
+step — unless the processor is inside a delivery into ANOTHER connection that is still open, has
+stopped reading and is full (`HeldByThird`: what is left of the property's exemption — the
+connection's own non-reading client is no excuse any more, `C16_self_held_not_ended`), or the state
+is the F3 wedge. -/
 theorem C16_no_deadlock_partial (c : Cfg) (hw : WF c) (s0 : St) (h0 : Init c s0) (sched : List Label) :
     let s := reach c s0 sched
-    Ended s = true → Final s = false → HeldUp s = false → ChunkWedge c s = false →
+    Ended s = true → Final s = false → HeldByThird s = false → ChunkWedge c s = false →
     ∃ t, en c s t = true := by
   intro s he hf hh hcw
   have hi : Inv c s := (C16_invariant c hw s0 h0 sched).1
@@ -180,13 +201,38 @@ theorem C16_no_deadlock_partial (c : Cfg) (hw : WF c) (s0 : St) (h0 : Init c s0)
     cases h : en c s t with
     | false => rfl
     | true => exact absurd ⟨t, h⟩ hne
-  simp only [HeldUp, Bool.or_eq_false_iff] at hh
-  rcases quiescent_cases c hw s hi.a hi.w hi.k hq with h | h | h | h | h
+  rcases quiescent_cases_fixed c hw s hi hq with h | h | h | h
   · rw [hf] at h; cases h
-  · rw [hh.1] at h; cases h
-  · rw [hh.2] at h; cases h
+  · rw [hh] at h; cases h
   · rw [hcw] at h; cases h
   · rw [he] at h; cases h
+
+/-- the exemption is exactly `HeldByThird` -/
+theorem C16_exemption_is_third_party (s : St) : HeldUp s = HeldByThird s := rfl
+
+/-- **a self-held connection has not ended** (repair b77088f).  In a reachable state in which no
+thread can step and the processor is inside a write to the connection's own outgoing ring while its
+own client is connected and not reading, the connection has not ended in any way the broker could
+have noticed: no read deadline has fired, the receiver is inside its loop, nobody has called
+`stop()`, the socket is open.  (Before the repair such a state could follow a keep-alive expiry or
+a receiver error and was exempted as "held up by self": `C16_old_receiver_wedges`.) -/
+theorem C16_self_held_not_ended (c : Cfg) (hw : WF c) (s0 : St) (h0 : Init c s0) (sched : List Label) :
+    let s := reach c s0 sched
+    quiescent c s = true → HeldBySelf s = true →
+    Ended s = false ∧ s.sh.timeout = false ∧ RPc.pastLoop s.recv = false ∧ s.sh.closed = false := by
+  intro s hq hs
+  have hi : Inv c s := (C16_invariant c hw s0 h0 sched).1
+  have he := self_held_not_ended c hw s hi ((quiescent_iff c s).mp hq) hs
+  refine ⟨he, ?_, ?_, ?_⟩
+  · cases h : s.sh.timeout with
+    | false => rfl
+    | true => simp [Ended, h] at he
+  · cases h : RPc.pastLoop s.recv with
+    | false => rfl
+    | true => simp [Ended, h] at he
+  · cases h : s.sh.closed with
+    | false => rfl
+    | true => simp [Ended, h] at he
 
 /-- a 14-byte packet of which the peer sends 9 bytes in pieces of at most 3, then closes -/
 def chunkInit : St := { sh := { stream := [⟨2, 14, .normal []⟩], wire := 9 } }
@@ -206,7 +252,7 @@ theorem C16_no_deadlock_counterexample :
      Ended s = true ∧ Final s = false ∧ HeldUp s = false ∧ s.sh.closed = false ∧
      quiescent c0 s = true ∧ ChunkWedge c0 s = true) := by
   refine ⟨c0_wf, ?_, by decide⟩
-  refine ⟨rfl, rfl, rfl, rfl, rfl, rfl, rfl, rfl, rfl, ?_, ?_, rfl, rfl⟩
+  refine ⟨rfl, rfl, rfl, rfl, rfl, rfl, rfl, rfl, rfl, ?_, ?_, rfl, rfl, rfl⟩
   · intro k hk; cases hk
   · intro w hw; cases hw
 
@@ -236,15 +282,16 @@ theorem C16_chunk_wedge_char (c : Cfg) (s : St) :
 /-- **the teardown completes** (the full property, with its exemption, minus F3).  From any
 reachable state in which the connection has ended, fair round-robin reaches within `rank` rounds a
 state in which nothing can run, and that state is the complete teardown (all goroutines exited,
-`stop()` returned, its effects complete) — or the processor is inside a delivery held up by a
-still-open connection that has stopped reading, or it is the F3 wedge. -/
+`stop()` returned, its effects complete) — or the processor is inside a delivery into ANOTHER
+connection that is still open, has stopped reading and is full, or it is the F3 wedge.  A
+connection whose own client has stopped reading is no exception any more (b77088f). -/
 theorem C16_teardown_completes (c : Cfg) (hw : WF c) (s0 : St) (h0 : Init c s0) (sched : List Label) :
     let s := reach c s0 sched
     Ended s = true →
     let q := drain c (rank c s) s
     quiescent c q = true ∧
     ((Final q = true ∧ TornDown q = true ∧ q.sh.effects = expectedEffects q.sh ∧ goroutinesLeft q = 0) ∨
-     HeldUp q = true ∨ ChunkWedge c q = true) := by
+     HeldByThird q = true ∨ ChunkWedge c q = true) := by
   intro s he q
   have hi : Inv c s := (C16_invariant c hw s0 h0 sched).1
   have hq := drain_quiescent c hw _ s hi (Nat.le_refl _)
@@ -254,7 +301,7 @@ theorem C16_teardown_completes (c : Cfg) (hw : WF c) (s0 : St) (h0 : Init c s0) 
     show Ended (drain c (rank c s) s) = true
     rw [hrun]; exact (persist_run c hw s sched' hth).1 he
   refine ⟨hq, ?_⟩
-  rcases quiescent_cases c hw q hiq.a hiq.w hiq.k ((quiescent_iff c q).mp hq) with h | h | h | h | h
+  rcases quiescent_cases_fixed c hw q hiq ((quiescent_iff c q).mp hq) with h | h | h | h
   · left
     have hp : q.proc = .stop .finished := by
       simp only [Final, Bool.and_eq_true, beq_iff_eq] at h
@@ -264,10 +311,42 @@ theorem C16_teardown_completes (c : Cfg) (hw : WF c) (s0 : St) (h0 : Init c s0) 
     refine ⟨h, ht.1, ht.2, ?_⟩
     simp only [Final, Bool.and_eq_true, beq_iff_eq] at h
     simp [goroutinesLeft, h.1.1.1.1, h.1.1.1.2, hp]
-  · right; left; simp [HeldUp, h]
-  · right; left; simp [HeldUp, h]
+  · right; left; exact h
   · right; right; exact h
   · rw [heq] at h; cases h
+
+/-- **a failed read always leads to the teardown.**  From any reachable state in which the
+receiver's read has failed — the keep-alive deadline has fired on it, or the receiver is already
+past its loop (peer closed or reset, ring closed under it) — fair round-robin reaches within `rank`
+rounds the complete teardown, for EVERY buffer condition: idle, own outgoing ring full with a third
+party's or with the connection's OWN processor parked in it behind a client that does not read,
+incoming ring full.  The only state left in which it can stop short is the processor inside a
+delivery into another connection that is open, not reading and full.  (The F3 wedge is a receiver
+that never gets to read; it cannot follow a failed read.) -/
+theorem C16_read_failure_completes (c : Cfg) (hw : WF c) (s0 : St) (h0 : Init c s0) (sched : List Label) :
+    let s := reach c s0 sched
+    (s.sh.timeout = true ∨ RPc.pastLoop s.recv = true) →
+    let q := drain c (rank c s) s
+    quiescent c q = true ∧
+    ((Final q = true ∧ TornDown q = true ∧ q.sh.effects = expectedEffects q.sh ∧ goroutinesLeft q = 0) ∨
+     HeldByThird q = true) := by
+  intro s hf q
+  have he : Ended s = true := by
+    rcases hf with h | h <;> simp [Ended, h]
+  obtain ⟨hq, hcases⟩ := C16_teardown_completes c hw s0 h0 sched he
+  refine ⟨hq, ?_⟩
+  rcases hcases with h | h | h
+  · exact Or.inl h
+  · exact Or.inr h
+  · exfalso
+    have hi : Inv c s := (C16_invariant c hw s0 h0 sched).1
+    have hiq : Inv c q := inv_drain c hw _ s hi
+    obtain ⟨sched', hrun, hth⟩ := drain_is_run c (rank c s) s
+    have hfq : RecvFailed q := by
+      show RecvFailed (drain c (rank c s) s)
+      rw [hrun]; exact recvFailed_run c hw s sched' hth hf
+    have := recvFailed_no_wedge c q hiq.r hfq
+    rw [this] at h; cases h
 
 /-- **the exemption is needed**: while the connection the processor delivers to stays open, not
 reading and full, no schedule of this connection's own threads gets the processor out of the
@@ -419,7 +498,7 @@ clearing `in`/`out`; a writer that passed the nil test before dereferences nil a
 theorem C16_old_stop_panics :
     let c : Cfg := { c0 with stopProg := stopProgram ++ [.clearRings] }
     let s0 : St := { sh := { sock := .peerClosed }, recv := .read, ws := [⟨.check, 4⟩] }
-    let s := run c s0 ([.th (.w 0) 0, .th (.w 0) 0, .th .recv 0, .th .recv 0, .th .recv 0, .th .proc 0, .th .proc 0,
+    let s := run c s0 ([.th (.w 0) 0, .th (.w 0) 0, .th .recv 0, .th .recv 0, .th .recv 0, .th .recv 0, .th .proc 0, .th .proc 0,
                         .th .proc 0, .th .proc 0, .th .proc 0, .th .proc 0, .th .proc 0, .th .send 0, .th .send 0,
                         .th .send 0] ++ List.replicate 6 (.th .proc 0) ++ [.th (.w 0) 0])
     s.sh.ringsNil = true ∧ s.ws = [⟨.panicked, 4⟩] := by decide
@@ -441,15 +520,56 @@ theorem C16_sequential_close_hangs :
     let s := drain c0 40 ((estep c0 s0 (.serverClose 0)).getD s0)
     quiescent c0 s = true ∧ Final s = false ∧ s.ks = [.run 5] ∧ HeldByThird s = true := by decide
 
+/-- the connection's own client has stopped reading and the connection answers its own traffic
+(acks, PINGRESP, its own subscription): two packets of 4 bytes, each answered with 12 bytes on the
+own outgoing ring of 16 -/
+def selfInit : St :=
+  { sh := { stream := [⟨2, 4, .normal [.own 12]⟩, ⟨2, 4, .normal [.own 12]⟩], wire := 8, willFlag := true, clean := true } }
+
+/-- the client stops reading; the receiver takes the 8 bytes and issues its next read; the processor
+answers the first packet and parks in `WriteWait` for the answer to the second (own outgoing ring:
+12 of 16 bytes used); the sender's write of the first 8 bytes blocks; then the client stays silent
+until the read deadline fires -/
+def selfSched : List Label :=
+  [.env (.peerReads false), .th .recv 0, .th .recv 8, .th .recv 0, .th .recv 0] ++
+  List.replicate 11 (.th .proc 0) ++ [.th .send 0, .env .kaExpire]
+
+/-- **with the receiver before b77088f the model wedges** (F7): keep-alive expiry on a connection
+whose processor is parked in its own outgoing ring behind its own non-reading client.  The
+receiver sees the time-out, closes the incoming ring and returns; nobody closes the socket, so the
+sender stays in its write, the outgoing ring stays open, the processor stays parked and never
+reaches its deferred `stop()`: a reachable state in which the connection has ended, nothing can
+run, nothing is torn down (no unsubscribe, no will), and neither the exemption nor the F3 wedge
+applies.  The repaired receiver tears the same state down completely, will included. -/
+theorem C16_old_receiver_wedges :
+    Init c0 selfInit ∧
+    (let c : Cfg := { c0 with recvCloses := false }
+     let s := reach c selfInit selfSched
+     let q := drain c 40 s
+     taken c selfInit selfSched = selfSched.length ∧
+     s.proc = .ownWait 12 [] ∧ s.recv = .read ∧ s.send = .write 8 ∧ s.sh.timeout = true ∧
+     quiescent c q = true ∧ Ended q = true ∧ Final q = false ∧ HeldUp q = false ∧ ChunkWedge c q = false ∧
+     HeldBySelf q = true ∧ q.recv = .exited ∧ q.sh.sock = .open ∧ q.sh.closed = false ∧ q.sh.effects = [] ∧
+     goroutinesLeft q = 2) ∧
+    (let s := reach c0 selfInit selfSched
+     let q := drain c0 40 s
+     s.proc = .ownWait 12 [] ∧ s.recv = .read ∧ s.sh.timeout = true ∧
+     Final q = true ∧ TornDown q = true ∧ q.sh.effects = [.unsub, .will, .sessDel] ∧ goroutinesLeft q = 0) := by
+  refine ⟨?_, by decide, by decide⟩
+  refine ⟨rfl, rfl, rfl, rfl, rfl, rfl, rfl, rfl, rfl, ?_, ?_, rfl, rfl, rfl⟩
+  · intro k hk; cases hk
+  · intro w hw; cases hw
+
 /-! ## Non-vacuity -/
 
 /-- out-full + abrupt close, step by step: the peer closes; the sender's write fails, its deferred
 `Close` releases the parked writer, which returns end-of-stream; receiver and processor see the
-closed socket / ring and exit; the processor runs `stop()` through all nine statements. -/
+closed socket / ring and exit (the receiver closing the socket on its way out); the processor runs
+`stop()` through all nine statements. -/
 def outFullSched : List Label :=
   [.env .peerClose,
    .th .send 0, .th .send 0, .th (.w 0) 0, .th .send 0,
-   .th .recv 0, .th .recv 0, .th .recv 0,
+   .th .recv 0, .th .recv 0, .th .recv 0, .th .recv 0,
    .th .proc 0, .th .proc 0] ++ List.replicate 10 (.th .proc 0)
 
 example :
@@ -471,7 +591,7 @@ example :
         List.replicate 4 (.th (.w 2) 0) ++ List.replicate 3 (.th (.w 0) 0))
      s.sh.outR.buf = 16 ∧ s.send = .write 8 ∧ s.recv = .read ∧ s.proc = .size ∧ s.sh.wmu = some (.w 0) ∧
      s.ws = [⟨.wait, 4⟩, ⟨.finished, 12⟩, ⟨.finished, 4⟩] ∧ quiescent c0 s = true) := by
-  refine ⟨⟨rfl, rfl, rfl, rfl, rfl, rfl, rfl, rfl, rfl, ?_, ?_, rfl, rfl⟩, by decide⟩
+  refine ⟨⟨rfl, rfl, rfl, rfl, rfl, rfl, rfl, rfl, rfl, ?_, ?_, rfl, rfl, rfl⟩, by decide⟩
   · intro k hk; cases hk
   · intro w hw; simp [outFullInit] at hw; rcases hw with rfl | rfl | rfl <;> rfl
 
@@ -496,5 +616,11 @@ example :
     let s0 : St := { recv := .read, sh := { willFlag := true } }
     let s := drain c0 40 ((estep c0 s0 .kaExpire).getD s0)
     Final s = true ∧ s.sh.effects = [.unsub, .will] := by decide
+
+/-- self-held and ended cannot both be true when nothing can run: the self-held state of
+`C16_old_receiver_wedges` BEFORE the deadline fires is quiescent and has not ended -/
+example :
+    let s := run c0 selfInit (selfSched.dropLast)
+    quiescent c0 s = true ∧ HeldBySelf s = true ∧ Ended s = false := by decide
 
 end Mqtt.Properties.C16
